@@ -74,7 +74,7 @@ def outcome(i):
 
 def run(ctx: Ctx) -> None:
     ctx.rule = ("valid well-formed trees (all with <=3 leaves over {1,2,501,901} + random up to 6/8 leaves); every transformation at every admissible "
-                "position; all 3^m assignments (m<=3/4) and all refinements of their UNKNOWN entries; bracket variants through the real parser; "
+                "position; all 3^m assignments (m<=3/4) and all refinements of their UNKNOWN entries; bracket variants through the real parser; swaps / brackets also with 2-3 requirement keys abbreviated by packages, through resolve + evaluate; "
                 "distinct = (tree, transformation, position)")
     ctx.coverage["generated_changed"] = extract.regenerate(["Cfv"])
     ok = ctx.lean_build(MODULES)
@@ -83,7 +83,7 @@ def run(ctx: Ctx) -> None:
         ctx.lean_audit(MODULES)
         if not ctx.quick:
             ctx.lean_check_olean(MODULES)
-    evalenv.configure_cer_based()
+    E.configure(ctx.rng)  # evaluators / providers suspend under a random schedule half of the time
     exprs = [e for _, e in EC.gen_exprs(ctx, ctx.pick(120, 1500), ctx.pick(6, 8), 3) if E.well_formed(e) and not E.invalid_at(e)]
     ctx.rng.shuffle(exprs)
     exprs = exprs[: ctx.pick(260, 3000)]
@@ -175,6 +175,44 @@ def run(ctx: Ctx) -> None:
                 k1 = in_k1_class(t0) and in_k1_class(tv) and "InvalidExpressionError" in (o0, ov)
                 ctx.violation(("redundant brackets" if kind == "brackets" else "swapping the operands of an operator") + " change validity or outcome (string level, documented precedence)",
                               {"expression": base_s, "variant": s, "rc": a, "outcome": repr(o0), "variant_outcome": repr(ov)}, key=K1_KEY if k1 else f"string-{kind}:{base_s}")
+                break
+
+    # the same, with requirement keys abbreviated by packages and evaluated through the whole pipeline (resolve packages, then evaluate):
+    # swapping operands / redundant brackets must not change the outcome, which is that of the unabbreviated expression
+    def pack(t, names):
+        if T.is_leaf(t):
+            return ("pkg", names[t[1]], None) if t[0] == "cond" and t[1] in names else t
+        return (t[0], pack(t[1], names), pack(t[2], names))
+    for e in exprs[: ctx.pick(300, 2500)]:
+        keys = E.keys_by_kind(e)["rc"]
+        if len(keys) < 2 or nested_then(e):
+            continue
+        chosen = ctx.rng.sample(keys, ctx.rng.randint(2, min(3, len(keys))))
+        names = {k: f"{i + 1}P" for i, k in enumerate(chosen)}
+        table = {names[k]: f"[{k}]" for k in chosen}
+        a = {k: ctx.rng.choice("FUK") for k in keys}
+        ref = outcome(E.eval_rc(T.to_lark(e), a, EC.hints_for(e)))
+        if ref == "InvalidExpressionError":
+            continue
+        swaps = [t2 for kind, t2 in transformations(ctx, e) if kind == "swap"][:3]
+        variants = [("as written", T.render(pack(e, names), T.Style(ctx.rng, "min", "rand", "one")).strip())]
+        variants += [("brackets", T.render(pack(e, names), T.Style(ctx.rng, b, "rand", "one")).strip()) for b in ("rand", "max")]
+        variants += [("swap", T.render(pack(t2, names), T.Style(ctx.rng, "min", "rand", "one")).strip()) for t2 in swaps]
+        evalenv.set_cer(evalenv.make_cer(packages=table))
+        for kind, sv in variants:
+            evalenv.set_cer(evalenv.make_cer(packages=table))
+            pv = P.resolve(sv, resolve_packages=True, replace_time_conditions=True)
+            ctx.case(("packages", kind, sv, sorted(a.items())))
+            ctx.count("with_packages", kind)
+            if "err" in pv:
+                ctx.violation(f"expression with packages does not resolve ({pv['err']})", {"expression": sv, "packages": table}, key=f"pkg-resolve:{sv}")
+                break
+            ov = outcome(E.eval_rc(pv["lark"], a, EC.hints_for(e)))
+            if ov != ref:
+                ctx.violation(("the outcome of an expression written with packages differs from the outcome of the expression they abbreviate" if kind == "as written" else
+                               ("redundant brackets" if kind == "brackets" else "swapping the operands of an operator") + " change the outcome of an expression written with packages"),
+                              {"expression": variants[0][1], "variant": sv, "packages": table, "rc": a, "unabbreviated": T.render(e, T.Style(ctx.rng, "min", "upper", "one")).strip(),
+                               "outcome_unabbreviated": repr(ref), "variant_outcome": repr(ov)}, key=f"pkg-{kind}:{variants[0][1]}")
                 break
 
     # K1 witness, replayed on every run
